@@ -13,6 +13,7 @@ TREES = [
     [(2, 0, 0), (2, 1, 0), (2, 1, 1), (3, 0, 0), (3, 9, 0)],
     [(0, 0, 0), (1, 0, 0), (1, 1, 0), (1, 1, 1), (2, 0, 0)],
     [(7, 0, 0), (7, 7, 0), (7, 7, 7)],
+    [(1, 0, 0), (1, 200, 0), (2, 0, 0), (2, 200, 0), (2, 200, 144), (1, 200, 144)],      # same high bytes beneath different parents
 ]
 STALL = 0x8E
 
